@@ -310,12 +310,8 @@ def _alts(t, depth=0):
 
 
 def rule_netloc_split(ctx, rule):
-    ctx.rule(rule, "netloc splitting in the emitter: userinfo split at the first '@' and the first ':'; the port splitter only splits at a ':' that is not inside a bracketed IPv6 literal; exactly the second piece is the port")
+    ctx.rule(rule, "port splitter language: PORT_SPLITTER only splits at a ':' that is not inside a bracketed IPv6 literal, and does split before a numeric port (how the pieces are used is decided by the model tables)")
     st, fn = emitter(ctx)
-    for sepc, what, w in (("@", "userinfo at the first '@'", "http://u:p@a.com/x@y"), (":", "user and password at the first ':'", "http://u:p:q@a.com")):
-        calls = [c for c in ast.walk(fn) if isinstance(c, ast.Call) and isinstance(c.func, ast.Attribute) and c.func.attr in ("split", "rsplit", "partition", "rpartition") and c.args and isinstance(c.args[0], ast.Constant) and c.args[0].value == sepc]
-        ok = bool(calls) and all((c.func.attr == "split" and len(c.args) == 2 and isinstance(c.args[1], ast.Constant) and c.args[1].value == 1) or c.func.attr == "partition" for c in calls)
-        ctx.ob(rule, "split-%s-first-only" % ("at" if sepc == "@" else "colon"), ok, "the emitter does not split the %s only" % what, st.site(fn), witness=w)
     rx = ctx.repo.const(st, "PORT_SPLITTER")
     ctx.rx("ural.lru.stems.PORT_SPLITTER")
     import re._parser as sp
@@ -342,6 +338,158 @@ def rule_netloc_split(ctx, rule):
             ctx.ob(rule, "port-splitter/splits-before-the-port", w is None, "PORT_SPLITTER refuses to split before the port %r" % w, site, witness="http://a.com:8080/")
         except Unsupported as e:
             ctx.undecided(rule, "PORT_SPLITTER look-ahead: %s" % e)
-    # exactly two pieces -> the second is the port
-    uses = [n for n in ast.walk(fn) if isinstance(n, ast.Compare) and "len(netloc)" in unparse(n)]
-    ctx.ob(rule, "port-is-second-of-two-pieces", any(unparse(u).replace(" ", "") == "len(netloc)==2" for u in uses), "the emitter does not take the port from a two-piece split of the netloc", st.site(fn))
+
+
+# ----------------------------------------------------------------------
+# model tables: emitter and reader interpreted on component-presence classes
+# ----------------------------------------------------------------------
+LRU_CELLS = [
+    # scheme
+    "http://a.com/x", "https://a.com/x", "a.com/x", "ftp://a.com/x", "a.com/r?to=https://b.org/x", "a.com/r/http://b.org/",
+    # userinfo: none / user / user:password / password only / empty password
+    "http://u@a.com/", "http://u:p@a.com/", "http://:p@a.com/", "http://u:p:q@a.com/", "http://u:p@a.com/x@y?z@t",
+    # host kinds (suffix_aware=False keeps the labels as written) and ports
+    "http://b.a.co.uk/", "http://127.0.0.1/", "http://127.0.0.1:8080/", "http://[::1]/", "http://[::1]:8080/x", "http://[2001:db8::1]:443/",
+    "http://localhost:8080/", "http://10.0.0.1.nip.io/app", "http://localhost.a.com:8080/", "http://cafe.de/", "http://a.com:8080/", "http://a.com:80/", "https://a.com:443/",
+    # paths: none / root / segments / trailing slash / empty segments
+    "http://a.com", "http://a.com/", "http://a.com/a", "http://a.com/a/", "http://a.com/a/b", "http://a.com//a", "http://a.com/a//b", "http://a.com///",
+    # query / fragment
+    "http://a.com/?q=1", "http://a.com?q=1&r=2", "http://a.com/a?q=a:b", "http://a.com/#f", "http://a.com#f#g", "http://a.com/a?q=1#f:g",
+    # everything at once
+    "https://u:p@b.a.co.uk:8080/a//b/?q=1&r#f",
+]
+LRU_SUFFIX_CELLS = [
+    "http://b.a.co.uk/x", "http://co.uk/", "http://a.co.uk:8080/", "http://A.B.Co.UK/", "http://a.x.ck/", "http://x.ck/", "http://a.www.ck/",
+    "http://foo.notatld/x", "http://127.0.0.1/x", "http://[::1]:8080/x", "http://u:p@b.a.github.io/x?q#f",
+]
+
+
+def _ref_stems(url, suffix_aware=False):
+    """the LRU format as documented: s:scheme t:port h:labels right-to-left (a special host or, when
+    suffix-aware, the public suffix as ONE stem) p:segments q:query f:fragment u:user w:password"""
+    from urllib.parse import urlsplit
+    from .c08 import _psl_reference, MINI_RULES
+    if not re.match(r"^(?:[A-Za-z]+:)?//", url):
+        url = "http://" + url
+    sp = urlsplit(url)
+    stems = []
+    if sp.scheme:
+        stems.append("s:" + sp.scheme)
+    netloc = sp.netloc
+    user = password = None
+    if "@" in netloc:
+        auth, netloc = netloc.split("@", 1)
+        user, _, password = auth.partition(":")
+        if ":" not in auth:
+            password = None
+    if netloc.startswith("["):
+        host, _, rest = netloc.partition("]")
+        host += "]"
+        port = rest[1:] if rest.startswith(":") else None
+    else:
+        host, sep, port = netloc.partition(":")
+        port = port if sep else None
+    if port is not None:
+        stems.append("t:" + port)
+    special = bool(re.match(r"^(?:localhost|\d{1,3}(?:\.\d{1,3}){3}|\[.*\]|[\da-fA-F]*:[\da-fA-F:.]*)$", host))
+    done = False
+    if suffix_aware and not special:
+        r = _psl_reference(MINI_RULES, sp.hostname or "")
+        if r is not None:
+            stems.append("h:" + r[1])
+            if r[0]:
+                stems.extend("h:" + l for l in reversed(r[0].split(".")))
+            done = True
+    if not done:
+        if special:
+            stems.append("h:" + host)
+        else:
+            stems.extend("h:" + l for l in reversed(host.split(".")))
+    stems.extend("p:" + seg for seg in sp.path.split("/")[1:])
+    if sp.query:
+        stems.append("q:" + sp.query)
+    if sp.fragment:
+        stems.append("f:" + sp.fragment)
+    if user:
+        stems.append("u:" + user)
+    if password:
+        stems.append("w:" + password)
+    return stems
+
+
+def rule_model(ctx, rule, tier_cells=None):
+    ctx.rule(rule, "model tables: lru_stems / url_to_lru / lru_to_url, interpreted (finite-domain interpreter) on one url per component-presence class {scheme given or not, userinfo none/user/user:password/password only, host domain/IPv4/IPv6/localhost with and without port, path none/root/segments/trailing slash/empty segments, query, fragment, all at once}, emit exactly the documented stems, serialise them with a trailing separator, and lru_to_url gives back a url with the same five components; with suffix_aware the public suffix (split_suffix replaced by the reference algorithm over the miniature rule list of C08) is one stem and the host is lower-cased")
+    from ..microeval import run_function, Native, Raised
+    from urllib.parse import urlsplit
+    from .c08 import _psl_reference, MINI_RULES
+    repo = ctx.repo
+    stems_mod = repo.mod("lru.stems")
+    conv = repo.mod("lru.conversion")
+    ser = repo.mod("lru.serialization")
+    f_stems = stems_mod.func("lru_stems")
+    f_to_lru = conv.func("url_to_lru")
+    f_to_url = conv.func("lru_to_url")
+    f_ser = ser.func("serialize_lru")
+    f_unser = ser.func("unserialize_lru")
+    ctx.fn(f_stems.qualname, f_to_lru.qualname, f_to_url.qualname, f_ser.qualname, f_unser.qualname, "ural.lru.stems.lru_stems_from_parsed_url")
+
+    def ref_split(parsed):
+        host = parsed.hostname if hasattr(parsed, "hostname") else urlsplit(parsed if "//" in parsed else "http://" + parsed).hostname
+        if host is None:
+            return None
+        if re.match(r"^(?:localhost|\d{1,3}(?:\.\d{1,3}){3}|[\da-fA-F]*:[\da-fA-F:.]*)$", host):
+            return None
+        return _psl_reference(MINI_RULES, host)
+
+    repo.overrides = {"ural.tld.split_suffix": Native(ref_split)}
+    n = 0
+    try:
+        for aware, cells in ((False, LRU_CELLS), (True, LRU_SUFFIX_CELLS)):
+            for u in cells:
+                n += 1
+                exp = _ref_stems(u, aware)
+                site = stems_mod.site(f_stems.node)
+                try:
+                    got = run_function(repo, f_stems, [u], {"suffix_aware": aware})
+                except (Unknown, Raised) as e:
+                    ctx.undecided(rule, "lru_stems(%r, suffix_aware=%s): %s" % (u, aware, e))
+                    continue
+                ctx.ob(rule, "stems/%s%s" % ("suffix-aware/" if aware else "", u), list(got) == exp,
+                       "lru_stems(%r, suffix_aware=%s) gives %r, the documented format gives %r" % (u, aware, got, exp), site, witness=u, sample="%r -> %r" % (u, got))
+                try:
+                    s = run_function(repo, f_to_lru, [u], {"suffix_aware": aware})
+                except (Unknown, Raised) as e:
+                    ctx.undecided(rule, "url_to_lru(%r): %s" % (u, e))
+                    continue
+                exps = "|".join(exp) + "|"
+                ctx.ob(rule, "serialized/%s%s" % ("suffix-aware/" if aware else "", u), s == exps,
+                       "url_to_lru(%r, suffix_aware=%s) gives %r, expected %r" % (u, aware, s, exps), conv.site(f_to_lru.node), witness=u)
+                try:
+                    back_stems = run_function(repo, f_unser, [exps])
+                except (Unknown, Raised) as e:
+                    ctx.undecided(rule, "unserialize_lru(%r): %s" % (exps, e))
+                    back_stems = None
+                if back_stems is not None:
+                    ctx.ob(rule, "unserialize/%s%s" % ("suffix-aware/" if aware else "", u), list(back_stems) == exp,
+                           "unserialize_lru(%r) gives %r, expected %r" % (exps, back_stems, exp), ser.site(f_unser.node), witness=exps)
+                for form, arg in (("stems", exp), ("serialized", exps)):
+                    try:
+                        back = run_function(repo, f_to_url, [arg])
+                    except (Unknown, Raised) as e:
+                        ctx.undecided(rule, "lru_to_url(%r): %s" % (arg, e))
+                        continue
+                    full = u if re.match(r"^(?:[A-Za-z]+:)?//", u) else "http://" + u
+                    want = urlsplit(full)
+                    if aware:
+                        # host lower-cased by the suffix splitter (the one documented loss)
+                        want = want._replace(netloc=want.netloc.lower()) if _psl_reference(MINI_RULES, want.hostname or "") else want
+                    try:
+                        have = urlsplit(back) if isinstance(back, str) else None
+                    except ValueError:
+                        have = None
+                    ctx.ob(rule, "roundtrip/%s/%s%s" % (form, "suffix-aware/" if aware else "", u), have is not None and tuple(have) == tuple(want),
+                           "lru_to_url(%s of %r) gives %r, whose components %r differ from the url's %r" % (form, u, back, tuple(have) if have else None, tuple(want)),
+                           conv.site(f_to_url.node), witness=u, sample="%r -> %r" % (arg, back))
+    finally:
+        repo.overrides = {}
+    ctx.require_instances(rule, n, len(LRU_CELLS) + len(LRU_SUFFIX_CELLS), "url cells")
